@@ -1,4 +1,6 @@
 """C09 — Inferred types agree with Gleam's typing (only the operator table is decided)."""
+import re
+
 from lib import flow as FL
 from lib import teval
 from lib.facts import callee, callee_def, op_local
@@ -10,7 +12,7 @@ META = {
             "like a top-level function is not a call edge); Y1 every binary operator the parser accepts (infix_bp != None, except |>) has an operator kind in BinaryOp::op_details, "
             "and that kind reaches an arm of the inferencer that unifies the operands with each other and with the operand type Gleam "
             "prescribes, and yields Gleam's result type (Int/Float arithmetic, Int/Float comparison -> Bool, equality -> Bool, "
-            "boolean -> Bool, <> -> String). One obligation per operator token. Y5 every arm of infer_pattern that says something about the matched value constrains the pattern's own type variable. Y8 the idx counter runs on across the members of a recursion group. Y7 unify picks the idx of two unsolved variables from both values. Y6 dependency_order_query traverses the body of every function of the module (the groups are complete).",
+            "boolean -> Bool, <> -> String). One obligation per operator token. Y5 every arm of infer_pattern that says something about the matched value constrains the pattern's own type variable. Y8 the idx counter runs on across the members of a recursion group. Y7 unify picks the idx of two unsolved variables from both values. Y6 dependency_order_query traverses the body of every function of the module (the groups are complete). Y9 every function of a group is frozen with naming state of its own. Y10 the declared type of a record field is instantiated with the resolver of the declaring module. Y11 what is entered into a scratch collection of the inference context (the aliases being expanded) is taken out again on every path to return.",
     "explanation": "C09 as a whole quantifies over programs and feature interactions of a union-find unifier; no shape argument decides "
                    "it and this check does not pretend to. One clause is structural and necessary: an operator without a typing rule "
                    "leaves every expression using it (and everything bound to it) untyped. That clause is decided for all 22 operators.",
@@ -285,6 +287,7 @@ def run(F, res, tier):
     group_members_share_one_counter(F, res)
     naming_state_is_per_function(F, res)
     declared_types_are_read_in_their_own_module(F, res)
+    scratch_stacks_are_balanced(F, res)
 
 
 def resolver_swaps(F, res, rule="Y4"):
@@ -691,3 +694,33 @@ def declared_types_are_read_in_their_own_module(F, res, rule="Y10"):
                 bad.append("%s line %d" % (FL.short(p_), t["ln"]))
     res.ob(rule, "field-types/declaring-module", "the declared type of a field is instantiated with the resolver of the module that declares the record",
            n >= 2 and not bad, where="crates/ide/src/ty/infer.rs", how="instantiations of a field's declared type: %d; not under a swap to the record's module: %s" % (n, bad))
+
+
+def scratch_stacks_are_balanced(F, res, rule="Y11"):
+    """Y11: the inference context owns scratch collections next to its results (the results are body_ctx and the shared table;
+    `alias_stack` = the aliases being expanded right now is scratch). An entry of such a collection says "this is in progress":
+    it is pushed before a nested call and must be gone when the function returns, or the rest of the function being inferred
+    sees the thing as still in progress (a second mention of an alias is taken for a recursive alias and becomes a fresh
+    unknown). Every push into an owned collection field of InferCtx is followed by a pop/truncate/clear of the same field on
+    every path to a return."""
+    from lib import effects as EF
+    IC_ = "ide::ty::infer::InferCtx"
+    a = F.adt(IC_)
+    scratch = sorted(f["name"] for v in a["variants"] for f in v["fields"]
+                     if re.match(r"^(alloc::vec::Vec|alloc::collections::|std::collections::|indexmap::|smallvec::)", f["ty"]))
+    res.floor("owned scratch collections of InferCtx", len(scratch), 1)
+    n = 0
+    for p, f in sorted(F.fns.items()):
+        if not p.startswith(("ide::", "<ide::")) or not f.blocks:
+            continue
+        es = [e for e in EF.field_effects(f, IC_) if e["field"] in scratch and e["how"] == "mutborrow"]
+        for fld in scratch:
+            ins = [e for e in es if e["field"] == fld and re.search(r"::(push|push_back|push_front|insert|extend)$", e.get("callee") or "")]
+            outs = [e["bb"] for e in es if e["field"] == fld and re.search(r"::(pop|pop_back|pop_front|truncate|clear|remove|swap_remove|shift_remove)$", e.get("callee") or "")]
+            for k, e in enumerate(ins):
+                n += 1
+                leak = f.can_reach(e["bb"], f.return_blocks(), avoid=outs) if outs else True
+                res.ob(rule, "%s/%s/entered/%d" % (p.rsplit("::", 1)[-1], fld, k),
+                       "what is entered into InferCtx.%s here is taken out again on every path to return (the entry means: in progress)" % fld,
+                       not leak, where=f.loc(e["ln"]), how="removing calls on the field in this function: %d; a return is reachable without one: %s" % (len(outs), leak))
+    res.floor("entries into scratch collections of InferCtx", n, 1)
